@@ -24,7 +24,7 @@ from .base import Outcome, Prop
 CONFIG_YML = ("models:\n  - type: main\n    engine: simllm\n    model: sim\n  - type: embeddings\n    engine: SimEmbed\n    model: sim\n")
 FIXED_TMPL = "Could not load the %s guardrails configuration. An internal error has occurred."
 
-VALID_IDS = ["cfgA", "cfgB", "CfgA"]  # CfgA: a different configuration whose name differs from cfgA only by case
+VALID_IDS = ["cfgA", "cfgB", "CfgA", "cfgS"]  # cfgS: a configuration with `streaming: True` (requests may then ask for a streamed reply)  # CfgA: a different configuration whose name differs from cfgA only by case
 HOSTILE_IDS = [
     "..", "../outside", "../root2/cfgX", "cfgA/../../outside", "cfgA/..", "/etc", "/dev/shm", "..\\outside", "cfgA\\..\\..\\outside", "....//outside", "%2e%2e%2foutside", "%2e%2e/outside",
     "．．/outside", "..／outside", "‥/outside", ".", "", " ", "cfgA/", "./cfgA", "cfgA\x00", "\x00", "nonexistent", "root2", "_hidden", ".dot", "file.txt", "cfgA" + "a" * 300, "CFGA", "cfgA ", "~", "$HOME",
@@ -75,7 +75,7 @@ class ServerWorld:
 def _yml(marker):
     # every configuration directory carries its own marker in the general instructions: the prompt (and with it the stub LLM's
     # reply) tells which configuration really served a request
-    return CONFIG_YML + "instructions:\n  - type: general\n    content: |\n      CFG[%s] you are a bot.\n" % marker
+    return CONFIG_YML + ("streaming: True\n" if marker == "cfgS" else "") + "instructions:\n  - type: general\n    content: |\n      CFG[%s] you are a bot.\n" % marker
 
 
 def build_tree(base):
@@ -114,7 +114,7 @@ class C20(Prop):
                  "embedding model", "event loop clock (SimLoop)"],
     }
     assumptions = ["the root itself counts as inside the root (config_id '.' resolves to it); confinement is judged on os.path.realpath", "store errors are outside the property's quantifier (not injected)"]
-    expected_probes = ["answering_config_identified", "hostile_id_rejected", "valid_id_loaded", "thread_second_request", "thread_request_with_returned_state", "concurrent_threads", "combined_config_ids", "empty_config_id"]
+    expected_probes = ["answering_config_identified", "hostile_id_rejected", "valid_id_loaded", "thread_second_request", "thread_request_with_returned_state", "streamed_reply", "concurrent_threads", "combined_config_ids", "empty_config_id"]
     ddmin_paths = [("requests",)]
     quick_runs = 400
     thorough_runs = 30000
@@ -150,6 +150,11 @@ class C20(Prop):
             if d.chance(0.2, "extra", i):
                 # a request may bring several new messages at once (a client catching up): all of them follow the stored thread
                 r["extra"] = [{"role": "user", "content": "earlier question %d" % i}, {"role": "assistant", "content": "earlier answer %d" % i}][: d.randint(1, 2, "nextra", i)]
+            if d.chance(0.12, "stream", i):
+                # a streamed reply (the configuration supports it): the thread is used and updated like for any other request
+                r.pop("config_ids", None)
+                r["config_id"] = "cfgS"
+                r["stream"] = True
             if d.chance(0.3, "state", i):
                 # an explicit state object next to the thread id: the state the server returned for this thread before
                 # ("prev"), or an empty one - the thread is used and updated all the same
@@ -218,6 +223,8 @@ class C20(Prop):
                     for k in ("config_id", "config_ids", "thread_id", "context"):
                         if k in r:
                             body[k] = expand(copy.deepcopy(r[k])) if k.startswith("config") else copy.deepcopy(r[k])
+                    if r.get("stream"):
+                        body["stream"] = True
                     if r.get("state"):
                         body["state"] = copy.deepcopy(last_state.get(r.get("thread_id")) or {}) if r["state"] == "prev" else {}
                         if body["state"]:
@@ -231,6 +238,13 @@ class C20(Prop):
                         return
                     try:
                         res = await api.chat_completion(rb, FakeRequest())
+                        if hasattr(res, "body_iterator"):
+                            # a StreamingResponse: the reply is what the stream delivers until it ends
+                            pieces = []
+                            async for piece in res.body_iterator:
+                                pieces.append(piece if isinstance(piece, str) else piece.decode("utf-8", "replace"))
+                            out.probe("streamed_reply")
+                            res = {"messages": [{"role": "assistant", "content": "".join(pieces)}], "streamed": True}
                         results[i] = ("ok", res)
                         if isinstance(res, dict) and res.get("state") and r.get("thread_id"):
                             last_state[r["thread_id"]] = res["state"]
@@ -375,6 +389,9 @@ class C20(Prop):
                 want = expected + [reply]
                 # the last write of this request
                 writes = [json.loads(v) for (op, k, v, tag) in store.ops if op == "set" and tag == "r%d" % i]
+                if st[1].get("streamed") and not writes:
+                    out.violate("thread-stored", "streaming-request-not-stored", "request %d (thread %r, streamed reply %r): nothing was stored for the thread, expected %r" % (i, tid, reply.get("content"), want))
+                    continue  # the model follows what really is in the store
                 if len(writes) != 1 or writes[0] != want:
                     out.violate("thread-stored", "wrong-write", "request %d (thread %r) stored %r, expected %r" % (i, tid, writes, want))
                 wrong_keys = [k for (op, k, v, tag) in store.ops if tag == "r%d" % i and k != "thread-" + tid]
